@@ -70,7 +70,9 @@ def run_algebra(chk, n):
                                          rule="random expression trees (+, -, unary -, * scalar, scalar *, * (value, error)) over ESFResults with "
                                               "overlapping order keys, evaluated by the real class and by the model; compared: keys in dict order, values, errors")
     chk.samples += descs[:1]
-    return [descs[i] for i in bad]
+    chk.corr["alphas_dispatch"]["disagreements"] = len(bad) + len(wrong_card)
+    chk.corr["alphas_dispatch"]["rule"] += "; the Couplings object must be built from the card handed over (reference alpha_s, order, masses, ratios), not from the card stored in the output"
+    return [descs[i] for i in bad] + wrong_card
 
 
 def xs_params(rng):
@@ -219,12 +221,20 @@ def run_alphas_dispatch(chk, n):
     from yadism.esf.result import ESFResult
     cases, descs = [], []
     orig = eko.couplings.Couplings.a_s
-    calls = []
+    orig_init = eko.couplings.Couplings.__init__
+    calls, inits = [], []
+
+    def spy_init(self, couplings, order, method, masses, hqm_scheme, thresholds_ratios):
+        inits.append(dict(alphas=float(couplings.alphas), scale=float(couplings.ref[0]) if hasattr(couplings, "ref") else None,
+                          order=tuple(order), masses=[float(m) for m in masses], ratios=[float(r) for r in thresholds_ratios]))
+        return orig_init(self, couplings=couplings, order=order, method=method, masses=masses, hqm_scheme=hqm_scheme, thresholds_ratios=thresholds_ratios)
 
     def spy(self, scale_to, nf_to=None, **kw):
         calls.append((float(scale_to), nf_to))
         return 0.01
     eko.couplings.Couplings.a_s = spy
+    eko.couplings.Couplings.__init__ = spy_init
+    wrong_card = []
     try:
         for _ in range(n):
             fns = chk.rng.choice(["ZM-VFNS", "ZM-VFNS", "FFNS", "FFN0", "FONLL-FFNS", "FONLL-FFN0", "VFNS"])
@@ -236,18 +246,29 @@ def run_alphas_dispatch(chk, n):
             walls = [(mc * kc) ** 2, (mb * kb) ** 2, (mt * kt) ** 2]
             q2s = [w / xiR ** 2 for w in walls[:2]] + [float(np.nextafter(walls[0] / xiR ** 2, 0)), dyadic(chk.rng, 1.0, 500.0, 8), dyadic(chk.rng, 1.0, 50.0, 8)]
             out = Output()
+            # the card stored in the output is ANOTHER card (other coupling, masses, ratios, order): the one handed over must be used
+            out.theory = cards.theory_card(FNS="ZM-VFNS", NfFF=4, mc=mc * 1.25, mb=mb * 1.25, mt=mt * 1.25, kcThr=1.0, kbThr=1.0, ktThr=1.0,
+                                           XIR=1.0, XIF=1.0, PTO=0, alphas=0.25)
+            th["alphas"] = chk.rng.choice([0.118, 0.125, 0.1])
             out["xgrid"] = dict(grid=[0.5, 1.0], log=True); out["pids"] = [21, 1]
             out["F2_total"] = []
             for q in q2s:
                 r = ESFResult(0.5, q, None); r.orders[(1, 0, 0, 0)] = (np.ones((2, 2)), np.zeros((2, 2)))
                 out["F2_total"].append(r)
             pdf = ToyPDF([[1.0, 1.0], [1.0, 1.0]], [21, 1], [0.5, 1.0], [])
-            del calls[:]
+            del calls[:]; del inits[:]
             try:
                 out.apply_pdf_theory(pdf, th)
                 rejected = False
             except ValueError:
                 rejected = True
+            if inits:
+                got = inits[-1]
+                want = dict(alphas=float(th["alphas"]), order=(th["PTO"] + 1, th.get("QED", 0)), masses=[mc ** 2, mb ** 2, mt ** 2], ratios=[kc ** 2, kb ** 2, kt ** 2])
+                diff = {k: (got[k], want[k]) for k in want if (list(got[k]) if isinstance(got[k], (list, tuple)) else got[k]) != (list(want[k]) if isinstance(want[k], (list, tuple)) else want[k])}
+                if diff:
+                    wrong_card.append(dict(fns=fns, NfFF=nfff, walls=walls, xiR=xiR, Q2s=q2s, calls=[], rejected=rejected,
+                                           couplings_built_from=diff, note="(got, expected from the card handed to apply_pdf_theory)"))
             exp = [float((np.sqrt(q) * xiR) ** 2) for q in q2s]
             if rejected:
                 # the model must reject too (unknown scheme name, or matching scales not monotone: np.digitize raises)
@@ -267,6 +288,7 @@ def run_alphas_dispatch(chk, n):
             descs.append(dict(fns=fns, NfFF=nfff, walls=walls, xiR=xiR, Q2s=q2s, calls=list(calls), rejected=rejected))
     finally:
         eko.couplings.Couplings.a_s = orig
+        eko.couplings.Couplings.__init__ = orig_init
     failing = set(common.eval_cases("alphas", HEADER, [t for t, _ in cases], "dcase_ok", per_file=150))
     bad = [i for i, (_t, wf) in enumerate(cases) if (i in failing) != wf]
     dist = {}
@@ -278,4 +300,6 @@ def run_alphas_dispatch(chk, n):
                                             "nf_to = NfFF (names containing FFNS/FFN0) or 3 + #{(m_q k_q)^2 <= scale^2} (ZM-VFNS), points exactly at and one ulp "
                                             "below a matching scale included; unknown scheme names must be rejected")
     chk.samples += descs[:1]
-    return [descs[i] for i in bad]
+    chk.corr["alphas_dispatch"]["disagreements"] = len(bad) + len(wrong_card)
+    chk.corr["alphas_dispatch"]["rule"] += "; the Couplings object must be built from the card handed over (reference alpha_s, order, masses, ratios), not from the card stored in the output"
+    return [descs[i] for i in bad] + wrong_card
